@@ -89,6 +89,17 @@ CLAIMS = {
         "valid_call_returns (no false rejection). Outcome is a sum type, so ValueError excludes a numeric result. Tie: the complete "
         "finite outcome table class x method x flags x dimension x n x order and a malformed stream, executed on the real classes.",
    technique="Lean 4 decision-logic theorems on translator-generated guards + exhaustive outcome-table correspondence"),
+ 'C12': dict(
+   text="The leaf methods of Bicomplex (+, -, neg, *, conjugate, sin, cos, sinh, cosh, exp, expm1, first component of log1p, mod_c) "
+        "are regenerated from multicomplex.py as Lean terms over C on every run. Theorems on those generated formulas: the "
+        "idempotent components phi1 = z1 - i z2, phi2 = z1 + i z2 are injective and commute with + - neg * (ring homomorphism) and "
+        "with exp, sin, cos, sinh, cosh, expm1 (phi_k(F z) = f(phi_k z), i.e. F is the holomorphic extension), conjugation swaps "
+        "them, log1p's first component is (log phi1(1+z) + log phi2(1+z))/2 where the arguments do not wrap, every function reduces "
+        "to the complex one for z2 = 0, and for every real polynomial p: imag12 of p(x+ih+jh) = (p(x) - Re p(x+2ih))/2 and imag1 of "
+        "p(x+ih) = Im p(x+ih) exactly (what the multicomplex method extracts). Tie: translator; ring operations also generated as "
+        "computable code and compared exactly on Gaussian dyadics. Partial: composites (division, pow, sqrt, tan..csch, inverse "
+        "functions, log's arg_c) are not theorems: they are validated against the independent idempotent oracle by the search.",
+   technique="Lean 4 proof (Mathlib complex trig identities) on translator-generated formulas + exact ring correspondence"),
 }
 
 checks = []
